@@ -12,6 +12,11 @@ use serde::ser::{Serialize, SerializeMap, SerializeSeq, Serializer};
 use unicode_segmentation::UnicodeSegmentation;
 
 mod de;
+/// add-only accessor for the verification harness: the private `ValueDeserializer`
+#[cfg(feature = "verif_hooks")]
+pub fn verif_value_deserializer(value: Value) -> de::ValueDeserializer {
+    de::ValueDeserializer::from_value(value)
+}
 mod key;
 pub(crate) mod number;
 mod ser;
